@@ -13,6 +13,8 @@ Deciding monitors, evaluated at every step:
            does not touch stays rejected by op(S) after the same request
   ATTR     set_index / reset_index: the attributes an Index level and a Column
            share are carried over
+  MIOPT    set_index(append=True) on / partial reset_index of a MultiIndex keep
+           the options of the MultiIndex itself (coerce, strict, name, ...)
   INVERSE  remove after add, rename back, reset after set, select(all) give a
            schema == S and fingerprint-equal to S
   INVALID  unknown key / rename onto an existing key / renaming through update /
@@ -56,6 +58,11 @@ def new_run():
          "nullable, coerce, required, unique=False), replace checks by checks "
          "the data satisfies, or change int -> float with astype on the frame",
          "joint unique= / groupby references to touched columns are not judged",
+         "where reset_index inserts the former levels among the column keys is "
+         "judged only through MIRROR on ordered=True schemas (pandas prepends)",
+         "MultiIndex(coerce=True) dissolved into a single Index by reset_index: "
+         "whether coerce is folded into the remaining level is not judged",
+         "MultiIndex options ordered=False / unique=[...] are not generated",
          "validation runs on deep copies of the schemas so that C05 defects do "
          "not leak into the receiver monitor"])
 
@@ -97,6 +104,24 @@ def levels_of(fps):
     if "indexes" in ix:
         return list(ix["indexes"])
     return [ix]
+
+
+def mi_opts_of(fps):
+    """Options of the MultiIndex itself (everything but its levels)."""
+    ix = fps.get("index")
+    if ix is None or "indexes" not in ix:
+        return None
+    return {k: v for k, v in ix.items() if k not in ("indexes", "columns")}
+
+
+def apply_mi_opts(spec, schema):
+    """MultiIndex-level options are not part of the c05 spec: set them here."""
+    o = spec.get("mi_opts")
+    if o:
+        import pandera as pa
+        schema.index = pa.MultiIndex(list(schema.index.indexes), coerce=o["coerce"],
+                                     strict=o["strict"], name=o["name"])
+    return schema
 
 
 def sorted_cols(fps):
@@ -151,6 +176,7 @@ K_MICOLS = "reset_index-reads-MultiIndex.columns-losing-level-coerce"
 K_STALE = "reset_index-partial-multiindex-leaves-indexes-stale"
 K_SHALLOW = "shallow-copy-shares-dict-update_checks-mutates-receiver"
 K_ORDER = "reset_index-appends-columns-where-pandas-prepends"
+K_MIOPTS = "set_index-append-rebuilds-MultiIndex-without-its-options"
 
 
 def classify(kind, step, w, spec):
@@ -164,6 +190,9 @@ def classify(kind, step, w, spec):
         return K_PROPS
     if kind == "set_index-attribute-not-carried" and attr in P.LOST_BY_REBUILD:
         return K_SET
+    if kind == "multiindex-options-changed" and m == "set_index" and step.get("append") \
+            and attr in ("coerce", "strict", "name", "ordered", "unique"):
+        return K_MIOPTS
     if kind == "reset_index-attribute-not-carried":
         if attr == "coerce" and multi:
             return K_MICOLS
@@ -178,10 +207,18 @@ def classify(kind, step, w, spec):
         in_index = w["diff"].startswith("$.index")
         if w["diff"].startswith("$.index.indexes: len") and multi:
             return K_STALE
+        # options of a MultiIndex that the receiver already had
+        if step.get("append") and w.get("orig_index_kind") == "multiindex" and re.match(
+                r"^\$\.index\._?(coerce|strict|name|ordered|unique)\b", w["diff"]):
+            return K_MIOPTS
         if attr == "coerce" and multi:
             return K_MICOLS
         if attr in P.LOST_BY_REBUILD:
-            return K_REMAIN if in_index else K_SET
+            if in_index:
+                return K_REMAIN
+            # lost on the way into the index (seen by ATTR at this step) or
+            # only on the way back
+            return K_SET if attr in (w.get("lost_at_set") or []) else K_RESET
     if kind == "index-levels-not-as-requested" and m == "reset_index" \
             and len(w.get("got", [])) >= 3 and w.get("got") == w.get("old_levels"):
         return K_STALE
@@ -189,9 +226,20 @@ def classify(kind, step, w, spec):
             and w.get("lost_drop_invalid_rows"):
         return K_PROPS
     if kind == "mirror-rejected" and m == "reset_index" and not step.get("drop") \
-            and spec.get("ordered") and "COLUMN_NOT_ORDERED" in json.dumps(w.get("detail")):
-        return K_ORDER
+            and spec.get("ordered") and _only_order_errors(w.get("detail")):
+        # the former levels are the first labels of the pandas frame and the
+        # last keys of the schema
+        moved = [str(x) for x in w.get("moved_levels") or []]
+        fc, sc = w.get("frame_columns") or [], w.get("schema_columns") or []
+        if moved and fc[:len(moved)] == moved \
+                and sorted(sc[-len(moved):]) == sorted(moved):
+            return K_ORDER
     return None
+
+
+def _only_order_errors(detail):
+    return isinstance(detail, list) and bool(detail) and all(
+        isinstance(e, list) and e and e[0] == "COLUMN_NOT_ORDERED" for e in detail)
 
 
 STRUCTURAL = ("index-levels-not-as-requested", "column-keys-not-as-requested",
@@ -203,6 +251,7 @@ class Case:
         self.run, self.spec, self.st = run, spec, st
         self.program = []
         self.structural = False
+        self.lost_at_set = set()
 
     def viol(self, kind, step, extra, attr=None, detail=None):
         w = {"spec": self.spec, "program": list(self.program), "step": step,
@@ -221,6 +270,7 @@ class Case:
         run.count(f"request:{st.backend}:{m}")
         fp_before = F.fp(S)
         self.structural = False
+        self.lost_at_set = set()
         saved_checks = (list(S.columns[step["key"]].checks)
                         if m in ("update_checks", "set_checks") else None)
         try:
@@ -276,6 +326,9 @@ class Case:
             self.viol("mirror-rejected", step,
                       {"outcome": out.kind, "detail": detail,
                        "lost_drop_invalid_rows": lost,
+                       "moved_levels": [str(c) for c in st.frame.columns
+                                        if c not in list(D_before.columns)]
+                       if m == "reset_index" else None,
                        "frame_columns": [str(c) for c in st.frame.columns],
                        "schema_columns": [str(k) for k in S2.columns]},
                       detail=detail)
@@ -386,6 +439,13 @@ class Case:
         if names != want:
             self.viol("index-levels-not-as-requested", step, {"expected": want, "got": names})
             return
+        oa, ob = mi_opts_of(fa), mi_opts_of(fb)
+        if step["append"] and oa is not None:
+            run.count("KEEP:multiindex_options")
+            d = F.diff(oa, ob, "$.index")
+            if d:
+                self.viol("multiindex-options-changed", step, {"diff": d},
+                          attr=diff_attr(d))
         for a, b in zip(old[:keep_n], new[:keep_n]):
             run.count("KEEP:existing_level")
             cd = comp_diff(a, b)
@@ -404,6 +464,7 @@ class Case:
                     continue
                 d = F.diff(src[a], lv[a], f"$.{a}")
                 if d:
+                    self.lost_at_set.add(attr_name(a))
                     self.viol("set_index-attribute-not-carried", step,
                               {"column": k, "diff": d}, attr=attr_name(a))
 
@@ -418,9 +479,21 @@ class Case:
                        "got": [lv.get("name") for lv in new],
                        "old_levels": [lv.get("name") for lv in old]})
             return
+        if len(remaining) > 1:
+            run.count("KEEP:multiindex_options")
+            d = F.diff(mi_opts_of(fa), mi_opts_of(fb), "$.index")
+            if d:
+                self.viol("multiindex-options-changed", step, {"diff": d},
+                          attr=diff_attr(d))
+        # MultiIndex(coerce=True) dissolved into one plain Index: whether its
+        # coerce option is folded into the remaining level is not judged
+        folded = ()
+        if len(old) > 1 and len(remaining) == 1 and (mi_opts_of(fa) or {}).get("_coerce"):
+            folded = ("coerce",)
+            run.count("undecided:coerce-of-level-left-by-dissolved-MultiIndex(coerce=True)")
         for a, b in zip(remaining, new):
             run.count("KEEP:remaining_level")
-            cd = comp_diff(a, b)
+            cd = comp_diff(a, b, ignore=folded)
             if cd:
                 self.viol("reset_index-remaining-level-changed", step,
                           {"level": a.get("name"), "diff": cd[1],
@@ -577,9 +650,13 @@ class Case:
         if d or eq is not True:
             nlev = len(getattr(S2.index, "indexes", [S2.index])) if \
                 getattr(S2, "index", None) is not None else 0
+            nlev0 = len(levels_of(fpS))
             self.viol(f"inverse-law:{law}", step,
                       {"diff": d, "eq": eq,
-                       "index_kind": "multiindex" if nlev > 1 else "index"},
+                       "index_kind": "multiindex" if nlev > 1 else "index",
+                       "orig_index_kind": "multiindex" if nlev0 > 1 else
+                       ("index" if nlev0 else None),
+                       "lost_at_set": sorted(self.lost_at_set)},
                       attr=diff_attr(d))
         else:
             run.count("INVERSE:held")
@@ -680,8 +757,13 @@ def one_case(run, rng):
     spec = G.gen_spec(rng, backend=backend, kind="frame", allow_flavors=False,
                       allow_dtz=False, allow_groupby=False, p_drop=0.15,
                       min_cols=2, max_cols=4)
+    if backend == "pandas" and len(spec.get("index") or []) > 1 and rng.random() < 0.8:
+        spec["mi_opts"] = {"coerce": rng.random() < 0.5, "strict": rng.random() < 0.5,
+                           "name": rng.choice([None, "MI"])}
+        run.count("feature:multiindex_options")
     try:
         built = G.build(spec)
+        apply_mi_opts(spec, built.schema)
     except Exception as e:
         run.count(f"build_error:{type(e).__name__}")
         return
@@ -737,6 +819,7 @@ def finalize(run, ctx):
                     ("KEEP:untouched_column", 1600), ("KEEP:renamed_column", 100),
                     ("KEEP:updated_column_other_attrs", 380),
                     ("KEEP:existing_level", 20), ("KEEP:remaining_level", 5),
+                    ("KEEP:multiindex_options", 5), ("feature:multiindex_options", 20),
                     ("MIRROR:evaluated", 800), ("MIRROR:accepted", 750),
                     ("MIRROR:set_index", 90), ("MIRROR:reset_index", 30),
                     ("MIRROR:add_columns", 80), ("MIRROR:remove_columns", 70),
@@ -765,6 +848,7 @@ def replay(path):
     import random
     r = new_run()
     built = G.build(spec)
+    apply_mi_opts(spec, built.schema)
     st = P.State(spec, built.schema)
     case = Case(r, spec, st)
     rng = random.Random(0)
